@@ -782,3 +782,230 @@ func TestTransportCancel(t *testing.T) {
 		ev.Sample(c)
 	})
 }
+
+// ---------------------------------------------------------------------------
+// ConsumerGroup used directly
+
+type groupCase struct {
+	Members     int    `json:"members"`
+	BrokerState string `json:"broker_state"` // normal | coord-error | join-stall | sync-error | heartbeat-stall | slow
+	ClosePoint  string `json:"close_point"`  // during-next | in-generation | after-fn-exit | error-pending
+	DelayUs     int    `json:"delay_us"`
+	Fns         int    `json:"fns"`       // functions started per generation
+	LingerMs    int    `json:"linger_ms"` // how long a function takes to return after its context ended
+	CloseTwice  bool   `json:"close_twice"`
+}
+
+func init() {
+	ev.Register("group", func(tb ev.TB, c groupCase) { runGroup(tb, c) })
+}
+
+func runGroup(tb ev.TB, c groupCase) (labels []string, nontrivial bool) {
+	base := len(libraryGoroutines())
+	nw := memnet.New()
+	cl := fakecluster.New(nw, 2)
+	defer cl.Close()
+	cl.CreateTopic("t", 3)
+	var mu sync.Mutex
+	coordErrs, syncErrs := 0, 0
+	cl.SetHook(func(cl *fakecluster.Cluster, r *fakecluster.Request) *fakecluster.Action {
+		mu.Lock()
+		defer mu.Unlock()
+		switch {
+		case c.BrokerState == "coord-error" && r.ApiKey == 10 && coordErrs < 3:
+			coordErrs++
+			return &fakecluster.Action{ErrorCode: 15, Tag: "coord-error"}
+		case c.BrokerState == "join-stall" && r.ApiKey == 11:
+			return &fakecluster.Action{NoResponse: true, Tag: "stall"}
+		case c.BrokerState == "sync-error" && r.ApiKey == 14 && syncErrs < 2:
+			syncErrs++
+			return &fakecluster.Action{ErrorCode: 27, Tag: "sync-error"}
+		case c.BrokerState == "heartbeat-stall" && r.ApiKey == 12:
+			return &fakecluster.Action{NoResponse: true, Tag: "stall"}
+		case c.BrokerState == "slow":
+			return &fakecluster.Action{Delay: 3 * time.Millisecond, Tag: "slow"}
+		}
+		return nil
+	})
+	fail := func(sig, format string, args ...any) { ev.Fail(tb, "group", sig, c, format, args...) }
+	type member struct {
+		cg      *kafka.ConsumerGroup
+		running sync.WaitGroup
+		exited  chan struct{}
+	}
+	var members []*member
+	var fnMu sync.Mutex
+	fnRunning := 0
+	for i := 0; i < c.Members; i++ {
+		d := &kafka.Dialer{Timeout: time.Second, ClientID: fmt.Sprintf("c09g-%d", i), DialFunc: nw.Dial}
+		cg, err := kafka.NewConsumerGroup(kafka.ConsumerGroupConfig{ID: "g", Brokers: []string{"b1.fake:9092"}, Dialer: d, Topics: []string{"t"},
+			HeartbeatInterval: 10 * time.Millisecond, SessionTimeout: 2 * time.Second, RebalanceTimeout: 150 * time.Millisecond, JoinGroupBackoff: 10 * time.Millisecond,
+			PartitionWatchInterval: 20 * time.Millisecond, WatchPartitionChanges: true, Timeout: 1500 * time.Millisecond})
+		if err != nil {
+			tb.Fatalf("harness: NewConsumerGroup: %v", err)
+		}
+		members = append(members, &member{cg: cg, exited: make(chan struct{})})
+	}
+	// every member runs the usual loop: Next, Start functions that wait for the end of the generation
+	for _, m := range members {
+		go func(m *member) {
+			defer close(m.exited)
+			for {
+				gen, err := m.cg.Next(context.Background())
+				if errors.Is(err, kafka.ErrGroupClosed) {
+					return
+				}
+				if err != nil {
+					continue
+				}
+				for f := 0; f < c.Fns; f++ {
+					fnMu.Lock()
+					fnRunning++
+					fnMu.Unlock()
+					gen.Start(func(ctx context.Context) {
+						<-ctx.Done()
+						time.Sleep(time.Duration(c.LingerMs) * time.Millisecond)
+						fnMu.Lock()
+						fnRunning--
+						fnMu.Unlock()
+					})
+				}
+			}
+		}(m)
+	}
+	// wait for the chosen point
+	waitUntil := func(max time.Duration, cond func() bool) bool {
+		dl := time.Now().Add(max)
+		for time.Now().Before(dl) {
+			if cond() {
+				return true
+			}
+			time.Sleep(time.Millisecond)
+		}
+		return false
+	}
+	switch c.ClosePoint {
+	case "in-generation":
+		waitUntil(2*time.Second, func() bool { s, _ := cl.GroupState("g"); return s == "Stable" })
+	case "during-next":
+		// as soon as the first JoinGroup is on its way
+		waitUntil(time.Second, func() bool {
+			for _, ex := range cl.Journal() {
+				if ex.ApiKey == 11 {
+					return true
+				}
+			}
+			return false
+		})
+	case "error-pending":
+		waitUntil(time.Second, func() bool {
+			for _, ex := range cl.Journal() {
+				if ex.ApiKey == 14 || ex.ApiKey == 10 {
+					return true
+				}
+			}
+			return false
+		})
+	case "after-fn-exit":
+		waitUntil(2*time.Second, func() bool { s, _ := cl.GroupState("g"); return s == "Stable" })
+		cl.ForceRebalance("g")
+	}
+	time.Sleep(time.Duration(c.DelayUs) * time.Microsecond)
+	joinedBefore := len(cl.GroupMembers("g"))
+	var closedAt time.Time
+	for i, m := range members {
+		done := make(chan struct{})
+		go func() {
+			m.cg.Close()
+			if c.CloseTwice {
+				m.cg.Close()
+			}
+			close(done)
+		}()
+		select {
+		case <-done:
+		case <-time.After(20 * time.Second):
+			if ok, desc := stuck(); ok {
+				fail("c09/group-close-hang", "ConsumerGroup.Close (member %d) did not return within 20 s and the library goroutines are stuck:\n    %s", i, desc)
+			} else {
+				ev.Inconclusive("group_close_slow")
+			}
+			return
+		}
+	}
+	closedAt = time.Now()
+	// the functions of the last generation have returned by the time Close returns
+	fnMu.Lock()
+	left := fnRunning
+	fnMu.Unlock()
+	if left > 0 {
+		// The statement only bounds how long goroutines may outlive Close (the network timeouts); functions still lingering
+		// for a few milliseconds are within it.  Recorded, not judged (C15 judges the hand-over between generations).
+		ev.Inconclusive("obs_group_close_returned_before_functions")
+	}
+	// Next reports the closed group
+	for i, m := range members {
+		select {
+		case <-m.exited:
+		case <-time.After(5 * time.Second):
+			fail("c09/next-after-close", "member %d: Next did not return ErrGroupClosed within 5 s of Close", i)
+			return
+		}
+		ctx, cancel := context.WithTimeout(context.Background(), time.Second)
+		_, err := m.cg.Next(ctx)
+		cancel()
+		if !errors.Is(err, kafka.ErrGroupClosed) {
+			fail("c09/next-after-close", "member %d: Next after Close returned %v, want ErrGroupClosed", i, err)
+			return
+		}
+	}
+	time.Sleep(30 * time.Millisecond)
+	for _, ex := range cl.Journal() {
+		if ex.At.After(closedAt.Add(2*time.Millisecond)) && (ex.ApiKey == 12 || ex.ApiKey == 8 || ex.ApiKey == 11 || ex.ApiKey == 14) {
+			fail("c09/group-request-after-close", "a %s request (seq %d) reached the coordinator %v after every ConsumerGroup.Close had returned", ex.ApiName, ex.Seq, ex.At.Sub(closedAt))
+			return
+		}
+	}
+	if leftover := waitNoLibraryGoroutines(base, 8*time.Second); leftover != nil {
+		var kinds []string
+		for _, g := range leftover {
+			kinds = append(kinds, normalize(g))
+		}
+		sort.Strings(kinds)
+		fail("c09/group-goroutine-leak", "%d library goroutines outlive ConsumerGroup.Close by more than 8 s:\n    %s", len(leftover)-base, strings.Join(kinds, "\n    "))
+		return
+	}
+	open := 0
+	for _, cs := range nw.Conns() {
+		if !cs.ClientClosed {
+			open++
+		}
+	}
+	if open > 0 {
+		fail("c09/group-connection-left-open", "%d of the %d connections the ConsumerGroups opened are still open after Close and after their goroutines ended", open, len(nw.Conns()))
+		return
+	}
+	labels = []string{"cgroup", "cg_close_" + c.ClosePoint, "cg_broker_" + c.BrokerState}
+	if joinedBefore > 0 {
+		labels = append(labels, "cg_close_joined_member")
+	}
+	return labels, true
+}
+
+func TestGroupClose(t *testing.T) {
+	rapid.Check(t, func(t *rapid.T) {
+		c := groupCase{
+			Members:     rapid.IntRange(1, 3).Draw(t, "members"),
+			BrokerState: rapid.SampledFrom([]string{"normal", "normal", "normal", "coord-error", "join-stall", "sync-error", "heartbeat-stall", "slow"}).Draw(t, "broker"),
+			ClosePoint:  rapid.SampledFrom([]string{"during-next", "in-generation", "in-generation", "after-fn-exit", "error-pending"}).Draw(t, "closePoint"),
+			DelayUs:     rapid.SampledFrom([]int{0, 100, 2000, 15000, 60000}).Draw(t, "delayUs"),
+			Fns:         rapid.IntRange(0, 3).Draw(t, "fns"),
+			LingerMs:    rapid.SampledFrom([]int{0, 0, 5, 40}).Draw(t, "lingerMs"),
+			CloseTwice:  rapid.IntRange(0, 4).Draw(t, "closeTwice") == 0,
+		}
+		ev.InFlight("group", c)
+		labels, nt := runGroup(t, c)
+		ev.Case(fmt.Sprintf("%+v", c), nt, labels...)
+		ev.Sample(c)
+	})
+}
